@@ -48,6 +48,7 @@ def main (lines : Array String) : IO Unit := do
   let mut w : HW := {}
   let mut free := 0
   let mut protoOf : List (Nat × Nat) := []   -- handle -> prototype index
+  let mut shadow : String := ""                -- listeners of the copy taken by the last `hcopy`
   let mut started := false
   for line in lines do
     match toks line with
@@ -73,7 +74,7 @@ def main (lines : Array String) : IO Unit := do
       for (a, sel) in m.argSel do
         let mine : Int := match firstMatch sg.nproto (fun p => sg.argOk p a) with | some p => p | none => -1
         if mine != sel then out.putStrLn s!"selection-mismatch argument kind {a}: library {sel}, first match {mine}"
-      w := {}; free := 0; protoOf := []
+      w := {}; free := 0; protoOf := []; shadow := ""
     | "do" :: rest =>
       let sg := m.sig
       let op : Option HOp := match rest with
@@ -93,6 +94,15 @@ def main (lines : Array String) : IO Unit := do
       | none =>
         match rest with
         | ["hremove", _, _] => out.putStrLn "ev res false"
+        | ["hcopy"] =>
+          -- the copy holds the listeners of this moment, as independent lists (C10 for the heterogeneous classes)
+          out.putStrLn "ev res unit"
+          let mut sh := ""
+          for key in List.range 2 do
+            for p in List.range sg.nproto do
+              for e in w.lists (slot key p) do
+                sh := sh ++ s!" {key}:{p}:{e.id}"
+          shadow := sh
         | _ => out.putStrLn "bad-op"
       | some op =>
         let before := w.queue.length
@@ -119,6 +129,7 @@ def main (lines : Array String) : IO Unit := do
       out.putStrLn ("q : " ++ " ".intercalate qs).trimAsciiEnd.toString
       let nbig := (w.queue.filter (fun e => e.kind == 3 || e.kind == 6)).length
       out.putStrLn s!"slots {free} big {nbig}"
+      out.putStrLn s!"shadow :{shadow}"
     | _ => pure ()
   if started then out.putStrLn "final-big 0"
 
